@@ -148,10 +148,10 @@ func (f *fakeClient) GetUserQuota() (*models.UserQuota, error) {
 		f.arrived.Add(1)
 		deadline := time.Now().Add(50 * time.Millisecond)
 		for spins := 0; f.arrived.Load() < n; spins++ {
-			if spins%1024 == 1023 {
-				if time.Now().After(deadline) {
-					break
-				}
+			if spins%1024 == 1023 && time.Now().After(deadline) {
+				break
+			}
+			if spins > 100000 && spins%1024 == 0 { // long wait: the other arrivals are not even scheduled yet
 				runtime.Gosched()
 			}
 		}
@@ -371,7 +371,7 @@ func TestMappingCap(t *testing.T) {
 	vkit.Check(t, 1920, 14400, func(t *rapid.T) {
 		c := Case{Kind: "mapping-cap", Mode: rapid.SampledFrom([]string{"sequential", "concurrent", "concurrent"}).Draw(t, "mode"), Rounds: 50}
 		c.Limit = rapid.SampledFrom([]int{0, 1, 1, 3}).Draw(t, "limit")
-		c.Ops = []int{rapid.SampledFrom([]int{0, 0, 0, 1, 1, 1, 2}).Draw(t, "limitSource")}
+		c.Ops = []int{rapid.SampledFrom([]int{0, 0, 1, 1, 1, 1, 2}).Draw(t, "limitSource")}
 		if c.Mode == "sequential" {
 			c.Feed = c.Limit + rapid.IntRange(1, 4).Draw(t, "extra")
 		} else {
